@@ -342,7 +342,22 @@ def _snapshot_without_postcondition():
     return f(1)
 
 
-for _name, _thunk in (("coroutine-invariant", _coroutine_invariant), ("coroutine-condition", _coroutine_condition),
+def _property_overrides_method():
+    class M0(icontract.DBC):
+        @icontract.ensure(lambda result: result > 0, enabled=True)
+        def x(self):
+            return 1
+
+    class M1(M0):
+        @property
+        @icontract.ensure(lambda result: result > 0, enabled=True)
+        def x(self):
+            return 1
+
+    return M1().x
+
+
+for _name, _thunk in (("property-overrides-method", _property_overrides_method), ("coroutine-invariant", _coroutine_invariant), ("coroutine-condition", _coroutine_condition),
                       ("coroutine-capture", _coroutine_capture), ("require-added-to-inherited-groups", _require_added_to_inherited_groups),
                       ("weaken-enabled-base", _weaken_enabled_base), ("weaken-enabled-base-violation", _weaken_enabled_base_violation),
                       ("invalid-error-argument", _invalid_error_argument), ("snapshot-without-postcondition", _snapshot_without_postcondition)):
